@@ -202,10 +202,18 @@ func corruptOracle(cf config, o *obs) (class, key, violation string) {
 	// works in both directions: then nothing key-relevant may have changed
 	if d := o.Orig.keyDiff(o.Res); len(d) > 0 {
 		if len(d) == 1 && strings.HasPrefix(d[0], "CipherSuiteID") {
-			// same exporter output and records accepted both ways: the substituted suite id names a
-			// suite with the same PRF hash and record protection (only key exchange / authentication differ)
-			return "VIOLATION suite-id-substituted", "corrupt-suite-id-of-same-record-protection-accepted",
-				"corrupted state yields a working connection that reports a different cipher suite (same record protection, different key exchange/authentication): " + d[0]
+			// Same exporter output and records accepted both ways, only the reported suite id differs.
+			// Benign (same class as a corrupted PeerCertificates field) iff the substituted id names a
+			// suite with the identical PRF hash, record cipher, MAC and key lengths (only key exchange /
+			// authentication differ): then every key and every record byte is unchanged. Judged from an
+			// independent table, not from the library.
+			a, aok := recordProtection[o.Orig.Suite]
+			b, bok := recordProtection[o.Res.Suite]
+			if aok && bok && a == b {
+				return classSuiteSameProtection, "", ""
+			}
+			return "VIOLATION suite-id-changes-record-protection", "corrupt-suite-id-of-different-record-protection-accepted:" + sideName(o.Point.Client),
+				fmt.Sprintf("corrupted state yields a working connection with identical exporter output although the reported cipher suite names a different record protection / PRF (%q -> %q): %s", a, b, d[0])
 		}
 		return "VIOLATION works-but-differs", "corrupt-works-but-differs:" + firstWord(d[0]) + ":" + sideName(o.Point.Client), "corrupted state yields a working connection that reports different key-relevant parameters: " + strings.Join(d, "; ")
 	}
@@ -219,4 +227,31 @@ func corruptOracle(cf config, o *obs) (class, key, violation string) {
 		return "works:sequence-differs", "", ""
 	}
 	return "works:identical-observables", "", ""
+}
+
+const classSuiteSameProtection = "works:nonkey-field-changed:CipherSuiteID-same-record-protection"
+
+// recordProtection maps a cipher suite id to what determines keys and record bytes: PRF hash,
+// record cipher (+MAC) and key lengths. Suites not listed share a class with nothing.
+var recordProtection = map[uint16]string{
+	0xc02b: "prf-sha256/aes128-gcm",             // ECDHE_ECDSA_WITH_AES_128_GCM_SHA256
+	0xc02f: "prf-sha256/aes128-gcm",             // ECDHE_RSA_WITH_AES_128_GCM_SHA256
+	0x00a8: "prf-sha256/aes128-gcm",             // PSK_WITH_AES_128_GCM_SHA256
+	0xc02c: "prf-sha384/aes256-gcm",             // ECDHE_ECDSA_WITH_AES_256_GCM_SHA384
+	0xc030: "prf-sha384/aes256-gcm",             // ECDHE_RSA_WITH_AES_256_GCM_SHA384
+	0xc00a: "prf-sha256/aes256-cbc-hmac-sha1",   // ECDHE_ECDSA_WITH_AES_256_CBC_SHA
+	0xc014: "prf-sha256/aes256-cbc-hmac-sha1",   // ECDHE_RSA_WITH_AES_256_CBC_SHA
+	0xc0ac: "prf-sha256/aes128-ccm",             // ECDHE_ECDSA_WITH_AES_128_CCM
+	0xc0a4: "prf-sha256/aes128-ccm",             // PSK_WITH_AES_128_CCM
+	0xc0ae: "prf-sha256/aes128-ccm8",            // ECDHE_ECDSA_WITH_AES_128_CCM_8
+	0xc0a8: "prf-sha256/aes128-ccm8",            // PSK_WITH_AES_128_CCM_8
+	0xc0a9: "prf-sha256/aes256-ccm8",            // PSK_WITH_AES_256_CCM_8
+	0x00ae: "prf-sha256/aes128-cbc-hmac-sha256", // PSK_WITH_AES_128_CBC_SHA256
+	0xc037: "prf-sha256/aes128-cbc-hmac-sha256", // ECDHE_PSK_WITH_AES_128_CBC_SHA256
+	0xcca9: "prf-sha256/chacha20-poly1305",      // ECDHE_ECDSA_WITH_CHACHA20_POLY1305_SHA256
+	0xcca8: "prf-sha256/chacha20-poly1305",      // ECDHE_RSA_WITH_CHACHA20_POLY1305_SHA256
+	0xccab: "prf-sha256/chacha20-poly1305",      // PSK_WITH_CHACHA20_POLY1305_SHA256
+	0x1301: "tls13/aes128-gcm-sha256",
+	0x1302: "tls13/aes256-gcm-sha384",
+	0x1303: "tls13/chacha20-poly1305-sha256",
 }
